@@ -129,6 +129,9 @@ Qed.
 Definition mark_ptr (ptr : bool) (n : string) (d : mdata) : mdata :=
   if ptr then with_is_ptr d (map_set (d_is_ptr d) n "true") else d.
 
+Definition map_apply (name : string) (d : mdata) : mdata :=
+  if String.eqb (d_verb d) "GET" || String.eqb (d_verb d) "DELETE" then with_dict d (Some name) else d.
+
 Definition kapply (d : mdata) (nk : string * pkind) : mdata :=
   match snd nk with
   | KCtx => with_ctx d (Some (fst nk))
@@ -136,7 +139,7 @@ Definition kapply (d : mdata) (nk : string * pkind) : mdata :=
       mark_ptr ptr (fst nk) (if mem_str (fst nk) (d_path_params d) then d
                              else with_query d (d_query_params d ++ [EParam (fst nk)]))
   | KStruct ptr fs => mark_ptr ptr (fst nk) (fold_left (handle_field (fst nk)) fs (with_body d (Some (fst nk))))
-  | KMap ptr => mark_ptr ptr (fst nk) (handle_map (fst nk) d)
+  | KMap ptr => mark_ptr ptr (fst nk) (map_apply (fst nk) d)
   end.
 
 Definition kptr (k : pkind) : bool :=
@@ -145,9 +148,10 @@ Definition kptr (k : pkind) : bool :=
 Lemma step_kapply : forall E t n k d,
   kind_of E t = Some k ->
   (is_struct k = true -> d_body d = None) ->
+  (is_map k = true -> d_dict d = None) ->
   handle_param_name E t (COk d) n = COk (kapply d (n, k)).
 Proof.
-  intros E t n k d Hk Hb. unfold handle_param_name. cbn [cbind].
+  intros E t n k d Hk Hb Hm. unfold handle_param_name. cbn [cbind].
   assert (Base : forall x ptr, kind_base E x ptr = Some k ->
             cbind (handle_expr E x n d) (fun d' => COk (if ptr then with_is_ptr d' (map_set (d_is_ptr d') n "true") else d'))
             = COk (kapply d (n, k))).
@@ -161,7 +165,8 @@ Proof.
       + destruct ptr; [discriminate|]. inversion Hx; subst k. reflexivity.
       + inversion Hx; subst k. unfold set_body. rewrite (Hb eq_refl). cbn [cbind].
         unfold kapply, handle_struct, mark_ptr. simpl. reflexivity.
-    - inversion Hx; subst k. reflexivity. }
+    - inversion Hx; subst k. cbn [handle_expr]. unfold handle_map, kapply, map_apply. cbn [fst snd].
+      rewrite (Hm eq_refl). destruct (String.eqb (d_verb d) "GET" || String.eqb (d_verb d) "DELETE"); reflexivity. }
   destruct t as [s|pkg s| |y|]; try (apply (Base _ false); exact Hk).
   simpl in Hk. cbn [handle_expr is_star]. apply (Base y true). exact Hk.
 Qed.
@@ -233,8 +238,8 @@ Proof.
     rewrite H1, H2, H3, H4, H5, H6, H7, H8, H9.
     destruct (handle_fields_fields n fs (with_body d (Some n))) as (G1 & G2 & G3 & G4 & G5 & G6 & G7 & G8 & G9).
     rewrite G1, G2, G3, G4, G5, G6, G7, G8, G9. rewrite set_list_app. simpl. repeat split; reflexivity.
-  - destruct (mark_ptr_fields ptr n (handle_map n d)) as (H1 & H2 & H3 & H4 & H5 & H6 & H7 & H8 & H9).
-    rewrite H1, H2, H3, H4, H5, H6, H7, H8, H9. unfold handle_map.
+  - destruct (mark_ptr_fields ptr n (map_apply n d)) as (H1 & H2 & H3 & H4 & H5 & H6 & H7 & H8 & H9).
+    rewrite H1, H2, H3, H4, H5, H6, H7, H8, H9. unfold map_apply.
     destruct (String.eqb (d_verb d) "GET" || String.eqb (d_verb d) "DELETE"); simpl; rewrite ?app_nil_r;
       repeat split; reflexivity.
 Qed.
@@ -261,23 +266,29 @@ Proof.
 Qed.
 
 Definition body_count (d : mdata) : nat := match d_body d with Some _ => 1 | None => 0 end.
+Definition dict_count (d : mdata) : nat := match d_dict d with Some _ => 1 | None => 0 end.
 
 Lemma cook_fold : forall E l ks d,
   map (fun nt => (fst nt, kind_of E (snd nt))) l = map (fun pk : string * pkind => (fst pk, Some (snd pk))) ks ->
   count_kind is_struct ks + body_count d <= 1 ->
+  count_kind is_map ks + dict_count d <= 1 ->
   fold_left (step_name E) l (COk d) = COk (fold_left kapply ks d).
 Proof.
-  intros E. induction l as [|[n t] l IH]; intros ks d Hm Hc.
+  intros E. induction l as [|[n t] l IH]; intros ks d Hm Hc Hd.
   - destruct ks; [reflexivity | discriminate].
   - destruct ks as [|[n' k] ks]; [discriminate|]. simpl in Hm. inversion Hm as [[Hn Hk Hrest]]. subst n'.
     cbn [fold_left]. replace (step_name E (COk d) (n, t)) with (handle_param_name E t (COk d) n) by reflexivity.
-    unfold count_kind in Hc. simpl filter in Hc. cbn [snd] in Hc.
+    unfold count_kind in Hc, Hd. simpl filter in Hc, Hd. cbn [snd] in Hc, Hd.
+    destruct (kapply_fields d (n, k)) as (_ & _ & _ & _ & _ & _ & Hb & _ & Hdd). cbn [fst snd] in Hb, Hdd.
     rewrite (step_kapply E t n k d Hk).
-    + apply IH; [exact Hrest|].
-      destruct (kapply_fields d (n, k)) as (_ & _ & _ & _ & _ & _ & Hb & _ & _). cbn [fst snd] in Hb.
-      unfold body_count in *. rewrite Hb. unfold count_kind.
-      destruct (is_struct k); simpl in Hc |- *; destruct (d_body d); simpl in *; lia.
+    + apply IH; [exact Hrest| |].
+      * unfold body_count in *. rewrite Hb. unfold count_kind.
+        destruct (is_struct k); simpl in Hc |- *; destruct (d_body d); simpl in *; lia.
+      * unfold dict_count in *. rewrite Hdd. unfold count_kind.
+        destruct (is_map k); simpl in Hd |- *;
+          destruct (String.eqb (d_verb d) "GET" || String.eqb (d_verb d) "DELETE"); destruct (d_dict d); simpl in *; lia.
     + intros Hs. rewrite Hs in Hc. simpl in Hc. unfold body_count in Hc. destruct (d_body d); [lia | reflexivity].
+    + intros Hs. rewrite Hs in Hd. simpl in Hd. unfold dict_count in Hd. destruct (d_dict d); [lia | reflexivity].
 Qed.
 
 Definition lastk (p : pkind -> bool) (ks : list (string * pkind)) (acc : option string) : option string :=
@@ -1093,13 +1104,32 @@ Lemma cook_method_ok : forall (sigma : oracle) E m ms,
   cook_method sigma E m = COk (dfin ms).
 Proof.
   intros sigma E m ms Hs [doc (Hd & Hp & Ha & Ht)] Hwf.
-  destruct (wf_unpack (fun _ _ => None) (fun _ => []) ms Hwf) as (_ & _ & _ & _ & Hat & _ & _ & _ & _ & Hc & _).
+  destruct (wf_unpack (fun _ _ => None) (fun _ => []) ms Hwf) as (_ & _ & _ & _ & Hat & _ & _ & _ & _ & Hc & Hcm & Hbody & _).
   unfold cook_method. rewrite Hd, Hp, Ha.
   rewrite real_path_params_resolve by assumption.
-  rewrite fold_params_flat. unfold dfin.
-  apply cook_fold.
+  rewrite fold_params_flat.
+  rewrite (cook_fold E (flat_params (md_params m)) (s_params ms)).
+  - fold (d0 ms). fold (dfin ms). cbn [cbind]. unfold check_body.
+    destruct (dfin_fields ms) as (Hv & _ & _ & _ & _ & _ & Hb & _). rewrite Hv, Hb.
+    destruct (body_verb (s_verb ms)) eqn:Eb; [|reflexivity].
+    destruct (count_pos_last is_struct (s_params ms)) as [x Hx]; [rewrite (Hbody eq_refl); lia|]. rewrite Hx. reflexivity.
   - rewrite <- typed_params_flat. exact Ht.
   - simpl. unfold body_count. simpl. lia.
+  - simpl. unfold dict_count. simpl. lia.
+Qed.
+
+(* what the generator guarantees about an accepted method: a body verb has its body parameter *)
+Lemma cook_ok_has_body : forall sigma E m d,
+  cook_method sigma E m = COk d -> body_verb (d_verb d) = true -> d_body d <> None.
+Proof.
+  intros sigma E m d H Hb. unfold cook_method in H.
+  destruct (md_doc m) as [doc|]; [|discriminate].
+  destruct (parse_path doc); try discriminate.
+  destruct (fold_left (handle_param E) (md_params m) _) as [d'| |w]; try discriminate.
+  cbn [cbind] in H. unfold check_body in H.
+  destruct (body_verb (d_verb d')) eqn:E1.
+  - destruct (d_body d') eqn:E2; [|discriminate]. inversion H; subst. congruence.
+  - inversion H; subst. congruence.
 Qed.
 
 Lemma request_is_declared :
